@@ -1,10 +1,349 @@
-// Package c18: harness for property C18 (stub until built).
+// Package c18: fees — the real fee ante decorator (directly and through CheckTx / FinalizeBlock
+// with signed transactions) and the real Keeper.Burn, observed as Coq terms for Econ/C18Check.v.
 package c18
 
-import "fmt"
+import (
+	"fmt"
+	"math/big"
+	"sort"
+	"strings"
 
-// Run generates n cases from seed, runs them on the real application and writes
-// cases_*.v and stats.json into outDir.
+	errorsmod "cosmossdk.io/errors"
+	sdkmath "cosmossdk.io/math"
+		sdk "github.com/cosmos/cosmos-sdk/types"
+	authtypes "github.com/cosmos/cosmos-sdk/x/auth/types"
+
+	feetypes "github.com/sunriselayer/sunrise/x/fee/types"
+	tctypes "github.com/sunriselayer/sunrise/x/tokenconverter/types"
+
+	"verifharness/apph"
+	"verifharness/emit"
+)
+
+// Denom universe, byte-sorted; the Coq model identifies a denom with its 1-based position so
+// that integer order = string order.  Positions 1 and 8 fail sdk.ValidateDenom.
+var universe = []string{"1abc", "uatom", "uosmo", "urise", "uusdc", "uvrise", "uzzz", "zz"}
+var badIDs = []int64{1, 8}
+var validDenoms = universe[1:7]
+
+func did(d string) int64 {
+	for i, u := range universe {
+		if u == d {
+			return int64(i + 1)
+		}
+	}
+	panic("denom outside the universe: " + d)
+}
+
+func init() {
+	if !sort.StringsAreSorted(universe) {
+		panic("universe must be sorted")
+	}
+	for i, u := range universe {
+		bad := sdk.ValidateDenom(u) != nil
+		want := i == 0 || i == len(universe)-1
+		if bad != want {
+			panic("universe validity assumption broken for " + u)
+		}
+	}
+}
+
+type coin struct {
+	Denom string
+	Amt   *big.Int
+}
+
+func coqCoins(cs []coin) string {
+	xs := make([]string, len(cs))
+	for i, c := range cs {
+		xs[i] = emit.Tuple(emit.ZI(did(c.Denom)), emit.Z(c.Amt))
+	}
+	return emit.List(xs)
+}
+func strCoins(cs []coin) string {
+	xs := make([]string, len(cs))
+	for i, c := range cs {
+		xs[i] = c.Amt.String() + c.Denom
+	}
+	return strings.Join(xs, ",")
+}
+func sdkCoins(cs []coin) sdk.Coins {
+	out := make(sdk.Coins, len(cs))
+	for i, c := range cs {
+		out[i] = sdk.Coin{Denom: c.Denom, Amount: sdkmath.NewIntFromBigInt(c.Amt)}
+	}
+	return out
+}
+func fromSdk(cs sdk.Coins) []coin {
+	out := make([]coin, len(cs))
+	for i, c := range cs {
+		out[i] = coin{c.Denom, c.Amount.BigInt()}
+	}
+	return out
+}
+
+// view: balances of the given accounts in the six valid denoms, then the six supplies.
+func view(h *apph.H, ctx sdk.Context, accts []sdk.AccAddress) []string {
+	var out []string
+	for _, a := range accts {
+		for _, d := range validDenoms {
+			out = append(out, hexZ(h.Bal(ctx, a, d).BigInt()))
+		}
+	}
+	for _, d := range validDenoms {
+		out = append(out, hexZ(h.Supply(ctx, d).BigInt()))
+	}
+	return out
+}
+
+// hexZ writes a non-negative integer as a Coq hexadecimal literal (coqc elaborates those
+// several times faster than decimal ones).
+func hexZ(x *big.Int) string {
+	if x.Sign() < 0 {
+		return "(-0x" + new(big.Int).Neg(x).Text(16) + ")"
+	}
+	return "0x" + x.Text(16)
+}
+
+// diffView renders post as the (position, value) pairs that differ from pre.
+func diffView(pre, post []string) string {
+	var xs []string
+	for i := range pre {
+		if pre[i] != post[i] {
+			xs = append(xs, emit.Tuple(emit.ZI(int64(i)), post[i]))
+		}
+	}
+	return emit.List(xs)
+}
+
+func sameView(a, b []string) bool {
+	if len(a) != len(b) {
+		return false
+	}
+	for i := range a {
+		if a[i] != b[i] {
+			return false
+		}
+	}
+	return true
+}
+
+// setBal makes addr hold exactly target of denom on ctx (mint to raise, burn to lower; both
+// through the tokenconverter module account, which holds minter+burner permissions).
+func setBal(h *apph.H, ctx sdk.Context, addr sdk.AccAddress, denom string, target *big.Int) error {
+	h.App.AuthKeeper.GetModuleAccount(ctx, tctypes.ModuleName) // creates the account when absent
+	cur := h.Bal(ctx, addr, denom).BigInt()
+	d := new(big.Int).Sub(target, cur)
+	if d.Sign() == 0 {
+		return nil
+	}
+	if d.Sign() > 0 {
+		cs := sdk.NewCoins(sdk.NewCoin(denom, sdkmath.NewIntFromBigInt(d)))
+		if err := h.App.BankKeeper.MintCoins(ctx, tctypes.ModuleName, cs); err != nil {
+			return err
+		}
+		return h.App.BankKeeper.SendCoins(ctx, authtypes.NewModuleAddress(tctypes.ModuleName), addr, cs)
+	}
+	d.Neg(d)
+	cs := sdk.NewCoins(sdk.NewCoin(denom, sdkmath.NewIntFromBigInt(d)))
+	if err := h.App.BankKeeper.SendCoins(ctx, addr, authtypes.NewModuleAddress(tctypes.ModuleName), cs); err != nil {
+		return err
+	}
+	return h.App.BankKeeper.BurnCoins(ctx, authtypes.NewModuleAddress(tctypes.ModuleName), cs)
+}
+
+// errClass maps an error to the model's class: sdk codespace -> code, feegrant -> 1000+code,
+// unregistered -> 1, other codespaces -> 2000+code; "Panic" for a recovered panic.
+func errClass(err error) string {
+	if err == nil {
+		return ""
+	}
+	if strings.HasPrefix(err.Error(), "panic:") {
+		return "Panic"
+	}
+	space, code, _ := errorsmod.ABCIInfo(err, false)
+	return classOf(space, code)
+}
+func classOf(space string, code uint32) string {
+	switch {
+	case space == "undefined" && code == 111222:
+		return "Panic"
+	case space == "sdk":
+		return fmt.Sprintf("(Err %d)", code)
+	case space == "feegrant":
+		return fmt.Sprintf("(Err %d)", 1000+code)
+	case space == "undefined":
+		return "(Err 1)"
+	default:
+		return fmt.Sprintf("(Err %d)", 2000+code)
+	}
+}
+
+// allowTerm renders the feegrant oracle's verdict as the model's [ai_allow].
+func allowTerm(err error) string {
+	if err == nil {
+		return "(Ok tt)"
+	}
+	return errClass(err)
+}
+
+type feeParams struct {
+	FeeDenom string
+	Bypass   []string
+}
+
+func paramsTerm(p *feeParams) string {
+	if p == nil {
+		return "None"
+	}
+	xs := make([]string, len(p.Bypass))
+	for i, b := range p.Bypass {
+		xs[i] = emit.ZI(did(b))
+	}
+	return "(Some " + emit.Tuple(emit.ZI(did(p.FeeDenom)), emit.List(xs)) + ")"
+}
+
+var modeNames = []string{"MCheck", "MReCheck", "MSimulate", "MPrepare", "MProcess", "MVoteExt", "MVerifyVoteExt", "MFinalize"}
+
+type anteIn struct {
+	Mode     int
+	Height   int64
+	Gas      uint64
+	Fee      []coin
+	Mgp      []coin // denom, raw LegacyDec
+	Params   *feeParams
+	Granter  int // 0 none, 1 = payer itself, 2 = distinct account
+	AllowErr string
+}
+
+func (a anteIn) coq() string {
+	gr := "None"
+	switch a.Granter {
+	case 1:
+		gr = "(Some 1)"
+	case 2:
+		gr = "(Some 2)"
+	}
+	bad := make([]string, len(badIDs))
+	for i, b := range badIDs {
+		bad[i] = emit.ZI(b)
+	}
+	return fmt.Sprintf("{| ai_mode := %s; ai_height := %s; ai_gas := %s; ai_fee := %s; ai_mgp := %s; ai_params := %s; ai_bad := %s; ai_payer := 1; ai_granter := %s; ai_allow := %s; ai_collector := 3 |}",
+		modeNames[a.Mode], emit.ZI(a.Height), emit.Z(new(big.Int).SetUint64(a.Gas)), coqCoins(a.Fee), coqCoins(a.Mgp),
+		paramsTerm(a.Params), emit.List(bad), gr, a.AllowErr)
+}
+
+// feeShape classifies a fee set for the non-triviality rule and the histogram.
+func feeShape(fee []coin, p *feeParams) string {
+	if len(fee) == 0 {
+		return "none"
+	}
+	cls := func(c coin) string {
+		k := "other"
+		if sdk.ValidateDenom(c.Denom) != nil {
+			k = "baddenom"
+		} else if p != nil && c.Denom == p.FeeDenom {
+			k = "fee"
+		} else if p != nil {
+			for _, b := range p.Bypass {
+				if b == c.Denom {
+					k = "bypass"
+				}
+			}
+		}
+		switch c.Amt.Sign() {
+		case 0:
+			k += "=0"
+		case -1:
+			k += "<0"
+		}
+		return k
+	}
+	xs := make([]string, len(fee))
+	for i, c := range fee {
+		xs[i] = cls(c)
+	}
+	return strings.Join(xs, "+")
+}
+
+var collector = authtypes.NewModuleAddress(authtypes.FeeCollectorName)
+var feeMod = authtypes.NewModuleAddress(feetypes.ModuleName)
+
+// Run generates n cases (plus the fixed corpus) and writes cases + stats into outDir.
 func Run(seed int64, n int, outDir string) error {
-	return fmt.Errorf("c18: harness not built yet")
+	r := emit.NewRand(seed)
+	// modest genesis balances keep the emitted numbers short
+	var gb sdk.Coins
+	for _, d := range []string{"uatom", "uosmo", "urise", "uusdc", "uvrise"} {
+		gb = gb.Add(sdk.NewCoin(d, sdkmath.NewInt(1_000_000_000_000)))
+	}
+	h := apph.New(apph.Options{NumAccounts: 8, Balances: gb})
+	defer h.Close()
+	st := emit.NewStats("C18", seed,
+		"ante: one run of the real DeductFeeDecorator (direct call with a generated FeeTx in every exec mode, or a signed tx through CheckTx/ReCheck/FinalizeBlock) compared with Econ/FeeAnte.ante_tx; non-trivial = check mode after genesis with a fee set different from 'one fee-denom coin', distinct by (fee shape, min-gas-price config, params config, granter kind, outcome). burn: one real Keeper.Burn call on generated collector balances, ratios and fee lists; non-trivial = a positive amount was burned or the burn failed for lack of funds")
+	cf := &emit.CasesFile{Import: "Econ.C18Check", Runner: "run", Type: "c18_case"}
+	e := &env{h: h, r: r, st: st, cf: cf}
+	if err := e.stabilityCheck(); err != nil {
+		return err
+	}
+	for _, c := range corpusDirect() {
+		if err := e.directCase(c, "corpus"); err != nil {
+			return err
+		}
+	}
+	for _, c := range corpusBurn() {
+		if err := e.burnCase(c, "corpus"); err != nil {
+			return err
+		}
+	}
+	nApp := n / 4
+	nBurn := n / 4
+	nDirect := n - nApp - nBurn
+	for i := 0; i < nDirect; i++ {
+		if err := e.directCase(e.genDirect(), "gen"); err != nil {
+			return err
+		}
+	}
+	for i := 0; i < nBurn; i++ {
+		if err := e.burnCase(e.genBurn(), "gen"); err != nil {
+			return err
+		}
+	}
+	for i := 0; i < nApp; i++ {
+		if err := e.appCase(); err != nil {
+			return err
+		}
+	}
+	if _, err := cf.Write(outDir, "cases", 400); err != nil {
+		return err
+	}
+	return st.Write(outDir)
+}
+
+type env struct {
+	h  *apph.H
+	r  *emit.Rand
+	st *emit.Stats
+	cf *emit.CasesFile
+	// app-level configuration currently installed
+	curMgp string
+}
+
+// stabilityCheck: an empty block must leave the watched balances and supplies unchanged (the
+// FinalizeBlock cases attribute the whole difference across one block to the transaction).
+func (e *env) stabilityCheck() error {
+	h := e.h
+	accts := []sdk.AccAddress{h.Accts[0].Addr, h.Accts[1].Addr, collector, h.Accts[7].Addr}
+	if _, err := h.NextBlock(blockStep); err != nil {
+		return err
+	}
+	a := view(h, h.Ctx(), accts)
+	if _, err := h.NextBlock(blockStep); err != nil {
+		return err
+	}
+	b := view(h, h.Ctx(), accts)
+	if !sameView(a, b) {
+		return fmt.Errorf("an empty block changes the watched ledger: %v -> %v", a, b)
+	}
+	return nil
 }
